@@ -327,6 +327,53 @@ func checkC01(w *Worker) {
 	if w.Tier == "thorough" {
 		budgets["env:maporder2"] = 1
 	}
+	// wide recipes: more ingredients / resolved elements than a slice's first capacities (8, 16, 32)
+	w.Explore("wide-recipes", ExploreOpts{ShardDepth: 3, Budgets: map[string]int{"env:maporder2": 0}}, func(x *Exec) {
+		W := []int{8, 9, 16, 17, 33}[x.Choose(5, "input:width")]
+		api := x.Choose(2, "input:api")
+		shape := x.Choose(3, "input:shape")
+		inner := absRecipe{Name: "inner"}
+		for j := 0; j < W; j++ {
+			inner.Ings = append(inner.Ings, absIng{fmt.Sprintf("e%02d", (j*7)%W), float64(j%5) - 1.5})
+		}
+		outer := absRecipe{Name: "outer"}
+		switch shape {
+		case 0: // sub-recipe first, then leaves that overlap it
+			outer.Ings = append(outer.Ings, absIng{"inner", 1}, absIng{"e00", 2}, absIng{fmt.Sprintf("e%02d", W-1), -1}, absIng{"zz", 1})
+		case 1: // leaves first, then the wide sub-recipe twice
+			outer.Ings = append(outer.Ings, absIng{"zz", 1}, absIng{"e03", 2}, absIng{"inner", -2}, absIng{"inner", 0.5})
+		default: // wide list of leaves with repeats after every growth point
+			for j := 0; j < W; j++ {
+				outer.Ings = append(outer.Ings, absIng{fmt.Sprintf("e%02d", j), 1})
+			}
+			outer.Ings = append(outer.Ings, absIng{"e00", 0.5}, absIng{"e07", 0.5}, absIng{"inner", 1})
+		}
+		book := absBook{outer, inner}
+		want := refResolve(book)
+		db := book.toDB()
+		visits := installMapOrder(x, "env:maporder")
+		var err error
+		func() {
+			defer uninstallMapOrder()
+			defer func() {
+				if r := recover(); r != nil {
+					err = fmt.Errorf("PANIC: %v", r)
+				}
+			}()
+			err = resolveVia(api, db, 10)
+		}()
+		x.Case(fmt.Sprint("wide", W, api, shape), true)
+		if err != nil {
+			x.Violate("C01|resolve-failed-on-acyclic-book", fmt.Sprintf("wide book (width %d, shape %d): %v", W, shape, err), nil)
+			return
+		}
+		for _, r := range book {
+			if msg := compareResolved(db[r.Name].Elements, want[r.Name]); msg != "" {
+				x.Violate("C01|wrong-resolution", fmt.Sprintf("book {%s} via %s, visiting order %v: recipe %s resolved to %s, expected %s: %s", book, apiNames[api], *visits, r.Name, elementsString(db[r.Name].Elements), refString(want[r.Name]), msg), map[string]interface{}{"book": book.String()})
+				return
+			}
+		}
+	})
 	w.Explore(fmt.Sprintf("dag-k%d-L%d", k, L), ExploreOpts{ShardDepth: 4, Budgets: budgets}, body(k, L, coefs))
 	if w.Tier == "thorough" {
 		w.Explore("dag-k4-L2", ExploreOpts{ShardDepth: 4, Budgets: map[string]int{"env:maporder2": 0}}, body(4, 2, []float64{1, -2}))
